@@ -24,6 +24,8 @@ def ev_text(ev):
         return "R:%d" % cls_id(A.KINDS[ev[1]][0])
     if k == "rsp2":
         return "R2:%d:%d" % (cls_id(A.KINDS[ev[1]][0]), cls_id(A.KINDS[ev[2]][0]))
+    if k == "listen":
+        return "T:0"        # no effect on requests: an empty step of the model
     if k == "data":
         return "D"
     if k == "tick":
@@ -97,7 +99,7 @@ def gen_scenario(rng, focus="mixed", length=None):
             elif x < 0.88 and live:
                 ev = ("cancel", rng.choice(live)[0])
             elif x < 0.91:
-                ev = ("data",)
+                ev = ("data",) if rng.random() < 0.6 or not issued else ("listen", rng.choice(issued)[1])
             elif x < (0.99 if focus == "close" else 0.94) and focus in ("close", "mixed"):
                 ev = rng.choice([("close",), ("lost",), ("lost",), ("reset_begin",), ("reset_end",)])
             else:
@@ -166,6 +168,23 @@ def mon_contiguous(events, steps):
                 if e is None or e[0] > i2:
                     return ("frame of request %d written between fragments %d and %d of request %d (still in progress)"
                             % (r2, k1, k1 + 1, r1))
+    # stop-and-wait: a data frame goes out only after the previous one was acknowledged WITH ITS OWN NUMBER, or its
+    # acknowledgement wait expired, or its sender was cancelled / the link closed or lost
+    seqs = []
+    for i, st in enumerate(steps):
+        for x in st:
+            if x.startswith("W:"):
+                seqs.append((i, int(x.split(":")[2])))
+    if wt is not None and len(wt) == len(seqs):
+        for j in range(1, len(seqs)):
+            (i0, q0), (i1, _) = seqs[j - 1], seqs[j]
+            between = events[i0 + 1:i1 + 1]
+            acked = any(e[0] == "ack" and e[1] == q0 for e in between)
+            released = any(e[0] in ("cancel", "close", "lost", "uclose") for e in between)
+            if not acked and not released and wt[j] - wt[j - 1] < 1000:
+                return ("data frame %d (step %d) written %d ms after data frame %d (packet number %d) although no acknowledgement with "
+                        "that number arrived in between, the acknowledgement wait (1000 ms) had not expired and nobody was cancelled"
+                        % (j + 1, i1, wt[j] - wt[j - 1], j, q0))
     en = ends(steps)
     for rid, (i, oc) in en.items():
         if oc == "R":
